@@ -305,7 +305,10 @@ class Property:
             "violations": len(violations) + (1 if (not violations and (disagreements or broken)) else 0),
         }
         if not replay:
-            infra.write_json(os.path.join(infra.ROOT, "evidence", pid + ".json"), ev)
+            # (the seeded-change tools redirect this, so that the committed evidence always comes from the unchanged tree)
+            evdir = os.environ.get("VERIF_EVIDENCE_DIR") or os.path.join(infra.ROOT, "evidence")
+            os.makedirs(evdir, exist_ok=True)
+            infra.write_json(os.path.join(evdir, pid + ".json"), ev)
         for l in out_lines:
             print(l)
         print("%s %s: %d cases, %d theorems (%s), %d disagreements, %d violations, %.1fs" % (
